@@ -497,6 +497,9 @@ type c06RCase struct {
 	// (ends inside a character unless n is a multiple of 3); 3 bytes >= 0x80 (no
 	// valid UTF-8 at all): what a peer holding a Go string may send
 	RKind int `json:"reason_kind,omitempty"`
+	// Chunk > 0: the transport delivers the stream in pieces of that many bytes (the
+	// Close frame's payload arrives in several reads)
+	Chunk int `json:"chunk,omitempty"`
 }
 
 var c06Positions = []string{"before", "between", "after", "in-fragment"}
@@ -510,7 +513,7 @@ func c06ReceiverTotal() int {
 }
 
 // reasons that are not ASCII: lengths 1..123 x kinds 1..3 x 2 codes x positions x roles
-const c06RecvKindCases = 123 * 3 * 2 * 4 * 2
+const c06RecvKindCases = 123 * 3 * 2 * 2 * 4 * 2
 
 func c06ReceiverCase(i int) c06RCase {
 	sweep := 65536 * 2 * 4 * 2
@@ -543,7 +546,9 @@ func c06ReceiverCase(i int) c06RCase {
 	i /= 123
 	kind := 1 + i%3
 	i /= 3
-	return c06RCase{Client: client, PayloadLen: 2 + n, Code: []int{1000, 4999}[i%2], Position: pos, RKind: kind}
+	chunk := []int{0, 7}[i%2]
+	i /= 2
+	return c06RCase{Client: client, PayloadLen: 2 + n, Code: []int{1000, 4999}[i%2], Position: pos, RKind: kind, Chunk: chunk}
 }
 
 type c06Msg struct {
@@ -609,6 +614,17 @@ func c06ReceiverOne(c *fw.Ctx, cs c06RCase) {
 	ctx, cancel := mxGuard(mxGuardTime)
 	defer cancel()
 	t := mxNewTransport(in)
+	if cs.Chunk > 0 {
+		var chunks [][]byte
+		for off := 0; off < len(in); off += cs.Chunk {
+			end := off + cs.Chunk
+			if end > len(in) {
+				end = len(in)
+			}
+			chunks = append(chunks, in[off:end])
+		}
+		t = mxNewTransport(chunks...)
+	}
 	conn := mxConn(t, cs.Client, "")
 	defer conn.CloseNow()
 	role := mxRole(cs.Client)
